@@ -24,6 +24,12 @@ values on three tiny documents in both modes, every operation object over the fi
 2 values (147 operations, 21 609 patches) on two documents; thorough tier: three documents x both modes, and
 every patch of three operations over 4 paths x 1 value (48 operations, 110 592 patches).
 
+Generator (6): pointer strings of every length: for every operation kind, as "path" and as "from",
+pointers of total byte length 0..300 and 1020..1030 (one long member name; nested names adding up
+to the length; "~0" / "~1" as the last two bytes; a two-digit index as last token), always beside a
+sibling named like the target minus its last character, so that a pointer losing its tail addresses
+the wrong node rather than failing.
+
 Direct oracle: the RFC 6902 evaluator below, written from the RFC in this file (it shares nothing
 with json-c or the Coq model), plus: patch document unchanged, copy source unchanged, no node
 shared between the result and the patch document / the source / two places of the result, no
@@ -1072,6 +1078,80 @@ def gen_small_scope(tier):
     return out
 
 
+# ------------------------------------------------------------------ pointer strings of every length
+# For every operation kind and for both "path" and "from": JSON Pointers whose TOTAL byte length
+# sweeps 0..300 and 1020..1030.  The target always has a sibling named like the target minus its
+# last character (and, for escaped endings, minus its last escape), so a pointer that loses its
+# tail anywhere on the way addresses the WRONG member / element instead of merely failing.
+SWEEP_LENGTHS = list(range(0, 301)) + list(range(1020, 1031))
+
+
+def sweep_layouts(L):
+    """(layout name, document, pointer of exactly L bytes to a node holding 1) for the layouts that exist at L"""
+    T, S = ("i", 1), ("i", 2)             # target value, sibling value
+    rest = [(b"z", [("i", 7)])]
+    if L == 0:
+        yield "root", ("o", [(b"a", T)]), b""
+        return
+    # one long member name
+    name = b"k" * (L - 2) + b"X" if L >= 2 else b""
+    ms = [(name, T)] + ([(name[:-1], S)] if name else [])
+    yield "name", ("o", ms + rest), b"/" + name
+    # nested names adding up to L:  /n1/n2/n3
+    if L >= 6:
+        l1 = (L - 3) // 3
+        l2 = (L - 3) // 3
+        l3 = L - 3 - l1 - l2
+        n1, n2, n3 = b"p" * l1, b"q" * l2, b"r" * (l3 - 1) + b"Y"
+        inner = ("o", [(n3[:-1], S), (n3, T)])
+        yield "nested", ("o", [(n1, ("o", [(n2, inner), (n2[:-1], ("o", [(n3, S)]))]))] + rest), b"/" + n1 + b"/" + n2 + b"/" + n3
+    # the last two bytes are an escape
+    if L >= 3:
+        for e, c in ((b"~0", b"~"), (b"~1", b"/")):
+            pre = b"e" * (L - 3)
+            yield "escape" + e.decode()[1], ("o", [(pre, S), (pre + c, T), (pre + c + c, S)] + rest), b"/" + pre + e
+    # the last token is a two-digit array index below a long name: losing a digit gives element 1
+    if L >= 4:
+        nm = b"a" * (L - 4)
+        arr = [S] * 10 + [T, S]
+        yield "index", ("o", [(nm, arr)] + rest), b"/" + nm + b"/10"
+
+
+def sweep_ops(ptr, is_root):
+    """every operation kind with the long pointer as path, and as from"""
+    yield mk_op(b"test", ptr, value=("i", 1))
+    yield mk_op(b"replace", ptr, value=("o", [(b"n", None)]))
+    yield mk_op(b"remove", ptr)
+    yield mk_op(b"add", ptr, value=[("i", 3)])
+    yield mk_op(b"move", b"/moved", **{"from": ptr})
+    yield mk_op(b"copy", b"/copied", **{"from": ptr})
+    yield mk_op(b"move", ptr, **{"from": b"/z"})
+    yield mk_op(b"copy", ptr, **{"from": b"/z/0"})
+    yield mk_op(b"move", ptr, **{"from": ptr})
+
+
+def gen_length_sweep(tier):
+    out = []
+    meta = {"kind": "pointer-length"}
+    k = 0
+    for L in SWEEP_LENGTHS:
+        for layout, doc, ptr in sweep_layouts(L):
+            assert len(ptr) == L and resolve(doc, ptr) == (doc if L == 0 else ("i", 1)), (L, layout)
+            ops = list(sweep_ops(ptr, L == 0))
+            for j, o in enumerate(ops):
+                # quick: every kind for the single long name, three kinds per length (rotating) for the other layouts
+                if tier == "quick" and layout not in ("name", "root") and (j - L) % 3 != 0:
+                    continue
+                k += 1
+                out.append((mk_line("ic"[k % 2], doc, [o]), meta))
+            # and one patch that uses the pointer four times in a row
+            seq = [mk_op(b"test", ptr, value=("i", 1)), mk_op(b"copy", b"/copied", **{"from": ptr}),
+                   mk_op(b"replace", ptr, value=None), mk_op(b"test", ptr, value=None), mk_op(b"remove", ptr)]
+            k += 1
+            out.append((mk_line("ic"[k % 2], doc, seq), meta))
+    return out
+
+
 def gen(rng, tier):
     n = 8000 if tier == "quick" else 150000
     out = []
@@ -1081,6 +1161,7 @@ def gen(rng, tier):
     # a JSON null target, a non-array patch
     out.append((mk_line("i", None, J([{"op": "add", "path": "", "value": 1}])), {"kind": "null-target"}))
     out.append((mk_line("c", None, J([])), {"kind": "null-target"}))
+    out += gen_length_sweep(tier)
     out += gen_small_scope(tier)
     out += gen_shapes_exhaustive()
     for ci in range(n // 6):
